@@ -138,6 +138,9 @@ func measure(op operation, sql string, reps int) (float64, uint64) {
 	best := time.Duration(1<<62 - 1)
 	var alloc uint64
 	for r := 0; r < reps; r++ {
+		// two collections empty every sync.Pool (the second drops the victim cache): each repetition allocates
+		// its buffers afresh, so the bytes allocated do not depend on what an earlier repetition left in a pool
+		runtime.GC()
 		runtime.GC()
 		var m0, m1 runtime.MemStats
 		runtime.ReadMemStats(&m0)
